@@ -240,7 +240,7 @@ def run_named(spec: dict[str, Any], naming: dict[str, Any], col: common.Collecto
     for nid, tags in naming.get("tags", {}).items():
         nm = [t[1] for t in tags if t[0] == "named"]
         st = [t for t in tags if t[0] == "stored"]
-        if nm and st:
+        if nm and st and int(nid) not in b.post_skipped:
             node = b.nodes.get(int(nid))
             is_out = any(node is v for v in b.outputs().values())
             if not is_out and node is not None and nm[0] not in kn["temps"]:
